@@ -500,6 +500,11 @@ func (fc *FnCtx) execInstr(in ssa.Instruction, st *State) {
 		fc.boundsCheck(st, tb.And(tb.Le(tb.Int(0), ln), tb.Le(ln, cp)), "makeslice")
 		r := fc.freshRef(st, "arr")
 		et := types.Unalias(in.Type()).Underlying().(*types.Slice).Elem()
+		if structElems(et) {
+			fc.assumeZeroElems(st, r, et)
+			fc.regs[in] = tb.App("mk_slice", "Slice", r, tb.Int(0), ln, cp)
+			return
+		}
 		es := fc.so.Sort(et)
 		key := "E:" + es
 		m := fc.heapGet(st, key, ArraySort("Ref", ArraySort("Int", es)))
@@ -582,6 +587,10 @@ func (fc *FnCtx) freshObject(st *State, t types.Type, hint string) *Term {
 	if _, isS := isStructType(t); isS {
 		fc.zeroObj(st, r, t)
 	} else {
+		if at, isArr := types.Unalias(t).Underlying().(*types.Array); isArr && structElems(at.Elem()) {
+			fc.assumeZeroElems(st, r, at.Elem())
+			return r
+		}
 		a := &Addr{Kind: aHeap, Ref: r, Key: fc.cellKey(t), RootType: t, Type: t}
 		fc.storeRoot(a, st, fc.so.Zero(t))
 	}
@@ -809,12 +818,19 @@ func (fc *FnCtx) indexAddr(in *ssa.IndexAddr, st *State) Val {
 		s := fc.term(fc.val(in.X, st))
 		ln := tb.App("s_len", "Int", s)
 		fc.boundsCheck(st, tb.And(tb.Le(tb.Int(0), i), tb.Lt(i, ln)), "index")
+		if structElems(xt.Elem()) {
+			// element objects: &s[i] is a reference of its own
+			return fc.elemRef(tb.App("s_arr", "Ref", s), tb.SIdx(tb.App("s_off", "Int", s), i), xt.Elem())
+		}
 		es := fc.so.Sort(xt.Elem())
 		return &Addr{Kind: aElem, Ref: tb.App("s_arr", "Ref", s), Key: "E:" + es, Idx: tb.SIdx(tb.App("s_off", "Int", s), i), RootType: xt.Elem(), Type: xt.Elem()}
 	case *types.Pointer: // pointer to array
 		at := types.Unalias(xt.Elem()).Underlying().(*types.Array)
 		fc.boundsCheck(st, tb.And(tb.Le(tb.Int(0), i), tb.Lt(i, tb.Int(at.Len()))), "index")
 		base := fc.ptrAddr(fc.val(in.X, st), in.X.Type(), st)
+		if structElems(at.Elem()) && base.Kind == aHeap && len(base.Path) == 0 && strings.HasPrefix(base.Key, "E:") {
+			return fc.elemRef(base.Ref, i, at.Elem())
+		}
 		na := *base
 		na.Path = append(append([]PathStep{}, base.Path...), PathStep{IsIndex: true, Index: i, ElemType: at.Elem()})
 		na.Type = at.Elem()
